@@ -81,6 +81,12 @@ def run(ctx):
                     if by_scrut[scr[i_]] == by_scrut[scr[j_]]:
                         ctx.violation(R2, key + "|same-slot-for-two-persistences", "the end-of-tick resets selected by `%s` and by `%s` both re-initialise %s: one piece of state is reset under the wrong "
                                       "persistence argument and the other is never reset" % (scr[i_], scr[j_], sorted(by_scrut[scr[i_]])), loc)
+            indirect = [m for (m, slots) in resets if slots and not any(s_ in prologue_slots for s_ in slots)]
+            if indirect and not any(sl for m, sl in good):
+                # the reset goes through a helper's parameter (e.g. a local closure `|persistence, buf_ident|`): which state it reaches is decided
+                # on generated code in the thorough tier (corpus pairs), not guessed here
+                ctx.notes.append("%s: end-of-tick reset through a helper parameter (%s)" % (op.name, [sl for _m, sl in resets]))
+                continue
             if not any(sl for m, sl in good):
                 ctx.violation(R2, key + "|no-reset", "no template on a Persistence::Tick arm of `%s` re-initialises (assigns / clear()s / drain()s) a state identifier declared in the operator's "
                               "prologue: 'tick state would survive into the next tick" % op.name, loc)
